@@ -113,7 +113,17 @@ class Feeder:
         return self.phase != "idle"
 
 
-class SimQueue:
+class _Guarded:
+    """an attribute the model object does not have (private attributes of the CPython classes, newer API)
+    must not surface as an AttributeError of the code under test: it makes the run INCONCLUSIVE"""
+
+    def __getattr__(self, name):
+        if name.startswith("__") and name.endswith("__"):
+            raise AttributeError(name)
+        raise SimUnsupported("unsupported-attribute:%s.%s" % (type(self).__name__.replace("Sim", ""), name))
+
+
+class SimQueue(_Guarded):
     def __init__(self, maxsize=0, *, ctx=None):
         w = _w()
         self.world = w
@@ -747,7 +757,7 @@ class SimValue:
         return self._lock
 
 
-class SimProcess:
+class SimProcess(_Guarded):
     """multiprocessing.Process (fork)."""
 
     def __init__(self, group=None, target=None, name=None, args=(), kwargs=None, *, daemon=None):
@@ -779,6 +789,16 @@ class SimProcess:
         self.sig_handlers = {}
         self._sentinel = None
         self._closed = False
+        self.body = None
+        self.extra_locks = 0
+        self.holds_pool_lock = None
+        self.running_task = None
+        self.pool = None
+        self.sigchld_sent = False
+        self.n_align = 0
+        self._child_target = None
+        self._child_args = ()
+        self._child_kwargs = {}
         self.reaped_by_other = False  # os.waitpid() outside multiprocessing collected the exit status
         self.status_known = False  # multiprocessing itself has seen the exit status
         self.spawner = None
@@ -909,6 +929,14 @@ class ParentProc:
     pid = 999
     pid_ = 999
     exitcode = None
+    extra_locks = 0
+    holds_pool_lock = None
+    running_task = None
+    pool = None
+    n_align = 0
+    ordinal = 0
+    spawner = None
+    sigchld_sent = False
 
     def __init__(self):
         self.feeders = []
@@ -1016,7 +1044,7 @@ class SimWorld:
                     proc.body()
                 elif type(proc).run is SimProcess.run:
                     if proc._target:
-                        getattr(proc, "_child_target", proc._target)(*proc._child_args, **proc._child_kwargs)
+                        (proc._child_target or proc._target)(*proc._child_args, **proc._child_kwargs)
                 else:
                     proc.run()
                 proc.target_done = True
